@@ -16,24 +16,25 @@ def first_tick(t, dt):
     return k
 
 
-def fired_per_tick(events, dt, nticks):
+def fired_per_tick(events, dt, nticks, t0=0):
     """events: [(t, {key: value})] in listing order -> list (per tick) of the
-    merged dict of sets that tick must produce."""
+    merged dict of sets that tick must produce.  The process's clock starts at
+    t0 (tick k runs with clock t0 + k*dt)."""
     out = [dict() for _ in range(nticks)]
     order = sorted(range(len(events)), key=lambda i: (events[i][0], i))
     for i in order:
         t, changes = events[i]
-        k = first_tick(t, dt)
+        k = max(0, first_tick(t - t0, dt))
         if k < nticks:
             out[k].update(changes)
     return out
 
 
-def trajectory(events, dt, nticks, varkeys, init=0, inc=1):
+def trajectory(events, dt, nticks, varkeys, init=0, inc=1, t0=0):
     """Expected emitted values at times 0, dt, ..., nticks*dt when a step adds
     `inc` to every variable in every step phase (construction included) and the
     sets fired in tick k are applied at (k+1)*dt, before that phase."""
-    fired = fired_per_tick(events, dt, nticks)
+    fired = fired_per_tick(events, dt, nticks, t0)
     cur = {k: init + inc for k in varkeys}
     rows = [dict(cur)]
     for k in range(nticks):
